@@ -20,7 +20,9 @@ type E2Spec struct {
 	Views      int    `json:"views"`       // views 0..Views-1 get symbols
 	Peers      []int  `json:"peers"`       // peers that send responses/commits/CVs (default: all others)
 	Proposals  string `json:"proposals"`   // "", "A", "AB"
+	OwnIndexProps bool `json:"own_index_props"` // proposals carrying X's own validator index (an active twin with the same key, or X's own earlier life before a restart)
 	WrongPrim  bool   `json:"wrong_prim"`  // a proposal from a non-primary
+	WrongPrimAll bool `json:"wrong_prim_all"` // ... from every non-primary index
 	Responses  string `json:"responses"`   // "", "A", "AB", "ABX" (X = bogus hash); "O" adds responses naming X's own proposal
 	Commits    string `json:"commits"`     // subset of "ABG" + "O" (valid for X's own proposal)
 	PreCommits string `json:"precommits"`  // same for pre-commits
@@ -121,7 +123,7 @@ func buildE2(w *World) *e2env {
 			_, prevTS := genesis(h)
 			ts := prevTS + sc.TSIncrement
 			props := map[byte]*Payload{}
-			if prim != x {
+			if prim != x || sp.OwnIndexProps {
 				if len(sp.Proposals) >= 1 {
 					props['A'] = mk(dbft.PrepareRequestType, prim, &prepReq{ts: ts, nonce: 0xA0 + uint64(v), txs: txFor('A', v)})
 				}
@@ -141,6 +143,13 @@ func buildE2(w *World) *e2env {
 				}
 				if wp != prim {
 					fixed(fmt.Sprintf("h%d v%d proposal from non-primary %d", h, v, wp), mk(dbft.PrepareRequestType, wp, &prepReq{ts: ts, nonce: 0xC0, txs: txFor('A', v)}))
+				}
+				if sp.WrongPrimAll {
+					for o := 0; o < n; o++ {
+						if o != prim && o != x && o != wp {
+							fixed(fmt.Sprintf("h%d v%d proposal from non-primary %d", h, v, o), mk(dbft.PrepareRequestType, o, &prepReq{ts: ts, nonce: 0xC0 + uint64(o), txs: txFor('A', v)}))
+						}
+					}
 				}
 			}
 			blockOf := func(p *Payload, own bool) func(w *World) ([2]H, bool) {
@@ -296,6 +305,17 @@ func buildE2(w *World) *e2env {
 				fixed(fmt.Sprintf("h%d v%d change view from out-of-range index %d", h, v, n), mk(dbft.ChangeViewType, n, &changeView{newView: 1, reason: dbft.CVTimeout, ts: envTS}))
 				fixed(fmt.Sprintf("h%d v%d commit from out-of-range index %d", h, v, n+3), mk(dbft.CommitType, n+3, &commitBody{mkSig('B', 99, H(1))}))
 			}
+		}
+	}
+	if sp.NextHeight {
+		// the validator list shrinks at the next height: payloads for that height from an index that is valid in the
+		// current list but past the end of the next one (they pass today's index check and sit in the cache until Reset)
+		n0, n1 := len(sc.validatorsAt(h0)), len(sc.validatorsAt(h0+1))
+		if n0 > n1 {
+			idx := n0 - 1
+			fixed(fmt.Sprintf("h%d commit from index %d (out of range at that height)", h0+1, idx), &Payload{typ: dbft.CommitType, height: h0 + 1, view: 0, idx: uint16(idx), body: &commitBody{mkSig('B', idx, H(0xdead))}})
+			fixed(fmt.Sprintf("h%d change view from index %d (out of range at that height)", h0+1, idx), &Payload{typ: dbft.ChangeViewType, height: h0 + 1, view: 0, idx: uint16(idx), body: &changeView{newView: 1, reason: dbft.CVTimeout, ts: envTS}})
+			fixed(fmt.Sprintf("h%d response from index %d (out of range at that height)", h0+1, idx), &Payload{typ: dbft.PrepareResponseType, height: h0 + 1, view: 0, idx: uint16(idx), body: &prepResp{H(0xbad1)}})
 		}
 	}
 	if sp.OldHeight {
